@@ -200,6 +200,22 @@ CHECKS = {
                 "proved only at ILP level. The iteration order of the considered-variant set is taken from the implementation.",
         "technique": "Lean 4 proof over the constraint builder + captured-model structural correspondence + read-out replay + exhaustive spec oracle",
     },
+    "C15": {
+        "text": "Lean model of Coverage.quality_filter / basic_filter / filtered, of _filter_alleles and of the minor stage's evidence filter "
+                "(as written). Machine-checked for every table, profile and variant: the quality filter of a variant depends only on its "
+                "qualifying observations (appending observations that fail either threshold changes nothing), keeps only qualifying ones and is "
+                "idempotent; an allele is a candidate only if its structure is in the gene structure and every core variant has positive "
+                "filtered support, so an allele with an unsupported core variant is never a candidate; a variant that passes the threshold "
+                "filter has at least min_coverage and at least total*threshold/cn supporting observations. Ties: _filter_alleles and the "
+                "evidence estimate_minor hands to solve_minor_model (intercepted) vs the model on tables mixing qualifying and sub-threshold "
+                "observations under varied, asymmetric thresholds. Oracle: metamorphic pairs through the real estimate_major/estimate_minor give "
+                "identical solutions and scores; every called core/novel/carried variant meets the count and fraction thresholds on qualifying reads.",
+        "design_ref": "DESIGN.md section 4 (C15)",
+        "note": "Invariance of the stages under low-quality reads is proved for the filter and carried to the stages by the metamorphic "
+                "correspondence (stages read evidence only through the filtered coverage - checked by the C02/C04 structural ties); the phase "
+                "record is not quality-filtered in the code.",
+        "technique": "Lean 4 proof (filter algebra) + metamorphic differential correspondence through the real stages",
+    },
 }
 
 NOT_YET = "check not built yet (work in progress; see DESIGN.md section 9 build order)"
